@@ -370,7 +370,15 @@ func GenNames(r *rand.Rand, rs *RuleSet, allowUnknown bool) []string {
 		nu := 1 + r.Intn(2)
 		for i := 0; i < nu; i++ {
 			pos := r.Intn(len(names) + 1)
-			names = append(names[:pos], append([]string{fmt.Sprintf("unknown_%d", i)}, names[pos:]...)...)
+			unk := fmt.Sprintf("unknown_%d", i)
+			if r.Intn(3) == 0 {
+				// an unknown name that differs from an existing one only by blanks around it
+				cand := []string{" " + all[0], all[0] + "  ", "\t" + all[0]}[r.Intn(3)]
+				if rs.ByName(cand) == nil {
+					unk = cand
+				}
+			}
+			names = append(names[:pos], append([]string{unk}, names[pos:]...)...)
 		}
 	}
 	return names
@@ -393,6 +401,16 @@ func GenDAG(r *rand.Rand, rs *RuleSet) [][]string {
 			}
 		}
 		dag = append(dag, layer)
+	}
+	if len(names) >= 12 && r.Intn(3) == 0 {
+		// one WIDE layer: every rule (some twice), far more goroutines than cores
+		wide := append([]string{}, names...)
+		for j := r.Intn(4); j > 0; j-- {
+			wide = append(wide, names[r.Intn(len(names))])
+		}
+		r.Shuffle(len(wide), func(i, j int) { wide[i], wide[j] = wide[j], wide[i] })
+		pos := r.Intn(len(dag) + 1)
+		dag = append(dag[:pos], append([][]string{wide}, dag[pos:]...)...)
 	}
 	return dag
 }
